@@ -14,7 +14,7 @@ EXTENDS Regex, Json, IOUtils
 Defs == JsonDeserialize(IOEnv.LEX_CASES)
 NC   == Len(Defs)
 Usable(k) == WellFormed(Defs[k]) /\ AllSupported(Defs[k])
-PatsOf == TLCEval([k \in 1..NC |-> IF Usable(k) THEN Pats(Defs[k]) ELSE <<>>])
+PatsOf == [k \in 1..NC |-> IF Usable(k) THEN Pats(Defs[k]) ELSE <<>>]
 
 VARIABLES c, ds, path
 vars == <<c, ds, path>>
